@@ -45,6 +45,10 @@ func CheckMnemonic(mnemonic string, lg Language) error {
 
 	// get real entropy
 	entBytes := entBig.Quo(entBig, big.NewInt(shift)).Bytes()
+	// big.Int.Bytes drops leading zero bytes, the entropy must keep them
+	if entLen := wordCount / 3 * 4; len(entBytes) < entLen {
+		entBytes = append(make([]byte, entLen-len(entBytes)), entBytes...)
+	}
 	// get checksum from real entropy
 	hash := sha256.New()
 	_, _ = hash.Write(entBytes)
